@@ -12,7 +12,7 @@
 
 enum { FK_PRINTF, FK_SCANF };
 enum { SK_BUF, SK_STREAM, SK_STD };
-enum { LEN_NONE, LEN_HH, LEN_H, LEN_L, LEN_LL, LEN_J, LEN_Z, LEN_T, LEN_BIGL };
+enum { LEN_NONE, LEN_HH, LEN_H, LEN_L, LEN_LL, LEN_J, LEN_Z, LEN_T, LEN_BIGL, LEN_BIGZ /* glibc: old spelling of z */, LEN_Q /* glibc/BSD: quad = ll */, LEN_COUNT };
 
 typedef struct fent {
     const char *name;
